@@ -316,7 +316,11 @@ def run_shard(ctx):
                             nitrogen=name in ('BensonGA', 'PPY'),
                             max_heavy=12 if q else 14)
         if q:
-            pl = [s for k, s in enumerate(pl) if k % 3 == ctx.seed % 3]
+            # the quick tier takes every third acyclic molecule but EVERY
+            # molecule with a ring (ring perception walks the ring in atom
+            # order: the class where spelling dependence lives)
+            pl = [s for k, s in enumerate(pl)
+                  if k % 3 == ctx.seed % 3 or any(c.isdigit() for c in s)]
         for k, smi in enumerate(pl):
             if ctx.mine(i):
                 check_case(ctx, {'lib': name, 'smiles': smi,
